@@ -72,3 +72,4 @@ pub mod c24;
 pub mod c29;
 pub mod c36;
 pub mod c38;
+pub mod c39;
